@@ -26,13 +26,69 @@ TESTUTIL_PATH = os.path.join(corpus.MYPYC_DATA, "fixtures", "testutil.py")
 Observer = Callable[[str, Any, str], None]  # (stage, FuncIR, module name)
 
 
+def cfg_handler_edges_missing(blocks: list, cfg: Any) -> list[dict]:
+    """Structural invariant of the CFG the pre-exception-insertion analyses (must-defined in uninit.py) run on --
+    the rule documented in dataflow.get_cfg: 'a block can jump to its error handler or the error handlers of any of
+    its normal successors (to represent an error before that next block completes)'.  Only edges that matter are
+    demanded: the block whose handler is meant must contain an op that can raise."""
+    out = []
+    index = {b: i for i, b in enumerate(blocks)}
+
+    def raises(b: Any) -> bool:
+        return any(op.can_raise() for op in b.ops)
+
+    for b in blocks:
+        succ = cfg.succ.get(b, [])
+        normal = list(b.terminator.targets())
+        for t in normal:
+            if t not in succ:
+                out.append({"kind": "normal-edge", "block": index[b], "to": index.get(t, -1)})
+        if b.error_handler is not None and raises(b) and b.error_handler not in succ:
+            out.append({"kind": "own-handler-edge", "block": index[b], "to": index.get(b.error_handler, -1)})
+        for t in normal:
+            h = t.error_handler
+            if h is not None and raises(t) and h not in succ:
+                out.append({"kind": "successor-handler-edge", "block": index[b], "via": index.get(t, -1),
+                            "to": index.get(h, -1), "own_handler": b.error_handler is not None})
+        for t in succ:
+            if b not in cfg.pred.get(t, []):
+                out.append({"kind": "pred-map", "block": index[b], "to": index.get(t, -1)})
+    return out
+
+
+CfgObserver = Callable[[Any, list, int, int], None]  # (FuncIR-or-None, missing edges, blocks, blocks with handler)
+
+
 @contextlib.contextmanager
-def observed_pipeline(observer: Observer) -> Iterator[None]:
-    """Wrap the two names inside emitmodule; restore afterwards."""
+def observed_pipeline(observer: Observer, cfg_observer: "CfgObserver | None" = None) -> Iterator[None]:
+    """Wrap the two names inside emitmodule (and, for the CFG invariant, the name `get_cfg` that uninit.py calls);
+    restore afterwards."""
     from mypyc.codegen import emitmodule
+    from mypyc.transform import uninit
 
     real_rc = emitmodule.insert_ref_count_opcodes
     real_fe = emitmodule.do_flag_elimination
+    real_uninit = emitmodule.insert_uninit_checks
+    real_get_cfg = uninit.get_cfg
+    current: list = [None]
+
+    def ui(fn: Any, *a: Any, **k: Any) -> None:
+        current[0] = fn
+        try:
+            real_uninit(fn, *a, **k)
+        finally:
+            current[0] = None
+
+    def gc(blocks: list, *a: Any, **k: Any) -> Any:
+        cfg = real_get_cfg(blocks, *a, **k)
+        if cfg_observer is not None and current[0] is not None:
+            cfg_observer(current[0], cfg_handler_edges_missing(blocks, cfg), len(blocks),
+                         sum(b.error_handler is not None for b in blocks))
+        return cfg
+
+    if cfg_observer is not None:
+        emitmodule.insert_uninit_checks = ui  # type: ignore[assignment]
+        uninit.get_cfg = gc  # type: ignore[assignment]
 
     def rc(fn: Any) -> None:
         real_rc(fn)
@@ -49,6 +105,8 @@ def observed_pipeline(observer: Observer) -> Iterator[None]:
     finally:
         emitmodule.insert_ref_count_opcodes = real_rc  # type: ignore[assignment]
         emitmodule.do_flag_elimination = real_fe  # type: ignore[assignment]
+        emitmodule.insert_uninit_checks = real_uninit  # type: ignore[assignment]
+        uninit.get_cfg = real_get_cfg  # type: ignore[assignment]
 
 
 def prepare_root(root: str) -> None:
@@ -68,7 +126,8 @@ def has_test_name_tag(name: str, tag: str) -> bool:
     return re.search(rf"(?:^|_){re.escape(tag)}(?:_|$)", name) is not None
 
 
-def compile_single(root: str, name: str, main: str, files: dict[str, str], observer: Observer) -> dict:
+def compile_single(root: str, name: str, main: str, files: dict[str, str], observer: Observer,
+                   cfg_observer: "CfgObserver | None" = None) -> dict:
     """irbuild/refcount style: one `__main__` module, fixtures/ir.py builtins (testutil.build_ir_for_single_file2)."""
     from mypy import build
     from mypy.errors import CompileError
@@ -110,7 +169,7 @@ def compile_single(root: str, name: str, main: str, files: dict[str, str], obser
         return {"status": "type_errors", "messages": result.errors[:5]}
     errors = Errors(options)
     mapper = Mapper({"__main__": None})
-    with observed_pipeline(observer):
+    with observed_pipeline(observer, cfg_observer):
         try:
             modules = emitmodule.compile_scc_to_ir([result.files["__main__"]], result, mapper, compiler_options, errors)
         except CompileError as e:
@@ -120,7 +179,8 @@ def compile_single(root: str, name: str, main: str, files: dict[str, str], obser
     return {"status": "ok", "functions": sum(len(m.functions) for m in modules.values())}
 
 
-def compile_run_case(root: str, name: str, main: str, files: dict[str, str], observer: Observer) -> dict:
+def compile_run_case(root: str, name: str, main: str, files: dict[str, str], observer: Observer,
+                     cfg_observer: "CfgObserver | None" = None) -> dict:
     """run-*.test style: `native.py` (+ other*.py) compiled as in test_run.run_case_step, step 1 only."""
     from mypy import build
     from mypy.errors import CompileError
@@ -194,7 +254,7 @@ def compile_run_case(root: str, name: str, main: str, files: dict[str, str], obs
         group_map = {source.module: lib_name for group, lib_name in groups for source in group}
         mapper = Mapper(group_map)
         result.manager.errors.set_file("<mypyc>", module=None, scope=None, options=result.manager.options)
-        with observed_pipeline(observer):
+        with observed_pipeline(observer, cfg_observer):
             try:
                 modules = emitmodule.compile_modules_to_ir(result, mapper, compiler_options, errors)
             except CompileError as e:
@@ -207,12 +267,13 @@ def compile_run_case(root: str, name: str, main: str, files: dict[str, str], obs
             result.manager.metastore.close()
 
 
-def compile_program(kind: str, root: str, name: str, main: str, files: dict[str, str], observer: Observer) -> dict:
+def compile_program(kind: str, root: str, name: str, main: str, files: dict[str, str], observer: Observer,
+                    cfg_observer: "CfgObserver | None" = None) -> dict:
     cwd = os.getcwd()
     try:
         if kind == "run":
-            return compile_run_case(root, name, main, files, observer)
-        return compile_single(root, name, main, files, observer)
+            return compile_run_case(root, name, main, files, observer, cfg_observer)
+        return compile_single(root, name, main, files, observer, cfg_observer)
     finally:
         os.chdir(cwd)
         shutil.rmtree(root, ignore_errors=True)
